@@ -248,7 +248,7 @@ def run_envelope(case):
 
 
 # -------------------------------------------------------------------- clip
-LIMITS = [None, "-1", "0", "1"]
+LIMITS = [None, "-1", "0", "1", "5/2", "-5/2"]
 
 
 def gen_pointwise(run):
@@ -270,7 +270,7 @@ def run_clip(case):
       l = None if lo is None else F(lo)
       h = None if hi is None else F(hi)
       plain = (LIMITS.index(lo) + LIMITS.index(hi)) % 2 == 1
-      conv = (lambda v: int(v)) if plain else Q
+      conv = (lambda v: int(v) if v.denominator == 1 else (float(v) if (LIMITS.index(lo) + len(x)) % 2 else v)) if plain else Q
       args = (None if l is None else conv(l), None if h is None else conv(h))
       if l is not None and h is not None and h < l:
         try:
